@@ -134,12 +134,13 @@ class Driver(object):
         self.hooks = []       # extra per-poll hooks (output harnesses)
 
     # ---------------------------------------------------------- set-up
-    def build(self):
+    def build(self, second=False):
         from supervisor.options import ServerOptions, ProcessConfig, ProcessGroupConfig
         from supervisor import events, rpcinterface, datatypes
         from supervisor.supervisord import Supervisor
         from supervisor.states import SupervisorStates
-        self.undo = simkernel.install(self.kernel)
+        if not second:
+            self.undo = simkernel.install(self.kernel)
         opts = ServerOptions()
         opts.logger = RecLogger(self._logged)
         if self.script.get('mainlog') and self.script.get('logdir'):
@@ -162,7 +163,8 @@ class Driver(object):
             lg.addHandler(h)
             opts.logger = lg
         import supervisor.poller as spoller
-        self._saved_select = (spoller, spoller.select)
+        if not second:
+            self._saved_select = (spoller, spoller.select)
         spoller.select = FakeSelect(self)
         opts.poller = (spoller.SelectPoller if self.script.get('poller') == 'select' else spoller.PollPoller)(opts)
         opts.mood = SupervisorStates.RUNNING
@@ -217,17 +219,27 @@ class Driver(object):
                                                  default_handler))
         opts.process_group_configs = gcfgs
         self.sup = Supervisor(opts)
-        events.clear()
         self.etab = _event_tables()
+        self.procs = [None] * (len(self.pcfgs) + len(self.lcfgs))
+        self.kernel.fork_owner = self._fork_owner
+        self.rpc = rpcinterface.SupervisorNamespaceRPCInterface(self.sup)
+        if second:
+            # the second life of a restarted daemon goes through the REAL Supervisor.run(): it clears the module-global
+            # subscriptions, adds the configured groups, installs the signal handlers and enters runforever()
+            opts.first = False
+            opts.nodaemon = True
+            opts.server_configs = []
+            opts.httpservers = []
+            opts.pidfile = os.path.join(self.script.get('logdir') or '/verif/_work', 'supervisord.pid')
+            self._need_bind = True
+            return
+        events.clear()
         events.subscribe(events.ProcessStateEvent, self._on_pstate)
         events.subscribe(events.SupervisorStateChangeEvent, self._on_sstate)
         for g, cfg in enumerate(gcfgs):
             if g >= len(self.script['groups']) or self.script['groups'][g].get('initial', 1):
                 self.sup.add_process_group(cfg)
-        self.procs = [None] * (len(self.pcfgs) + len(self.lcfgs))
         self._bind_procs()
-        self.kernel.fork_owner = self._fork_owner
-        self.rpc = rpcinterface.SupervisorNamespaceRPCInterface(self.sup)
         opts.setsignals()            # Supervisor.run() does this before runforever()
 
     def _bind_procs(self):
@@ -314,6 +326,10 @@ class Driver(object):
         ops = self.script['ops']
         if self.opi >= len(ops):
             raise EndOfScript()
+        if getattr(self, '_need_bind', False):
+            self._need_bind = False
+            self._bind_procs()
+            self._judge_subscriptions()
         self.snaps.append(self.snapshot())
         op = ops[self.opi]
         self.opi += 1
@@ -498,6 +514,59 @@ class Driver(object):
         else:
             raise ValueError(kind)
 
+    # ---------------------------------------------------------- restart in process (supervisord.main's loop)
+    def _judge_subscriptions(self):
+        """After a restart only the pools of the running daemon (and the harness observers) may be subscribed."""
+        from supervisor import events
+        from supervisor.process import EventListenerPool
+        mine = set(id(g) for g in self.sup.process_groups.values())
+        stale = 0
+        for (_t, cb) in list(events.callbacks):
+            owner = getattr(cb, '__self__', None)
+            if isinstance(owner, EventListenerPool) and id(owner) not in mine:
+                stale += 1
+        self.stale_pools = stale
+
+    def _second_life(self):
+        """What supervisord.main() does after a restart request: close the servers and the logger, make a new
+        ServerOptions and a new Supervisor, and run it - through the real Supervisor.run()."""
+        from supervisor import events
+        from supervisor.medusa import asyncore_25
+        try:
+            self.options.close_httpservers()
+            self.options.close_logger()
+        except Exception:
+            pass
+        self.kernel.trace.append(('life', 2))
+        real_clear = events.clear
+
+        def clear_and_observe():
+            real_clear()
+            events.subscribe(events.ProcessStateEvent, self._on_pstate)
+            events.subscribe(events.SupervisorStateChangeEvent, self._on_sstate)
+        self.build(second=True)
+        events.clear = clear_and_observe
+        try:
+            try:
+                self.sup.run()
+                self.ended = 'returned'
+            except EndOfScript:
+                self.ended = 'script'
+            except asyncore_25.ExitNow:
+                self.kernel.trace.append(('exitnow',))
+                self.ended = 'exit'
+            except simkernel.DaemonKilled as e:
+                self.kernel.trace.append(('crash', 'killed by signal %s' % e.args[0]))
+                self.crash_tb = 'supervisord installed no handler for signal %s' % e.args[0]
+                self.ended = 'crash'
+            except Exception as e:
+                import traceback
+                self.crash_tb = traceback.format_exc()
+                self.kernel.trace.append(('crash', type(e).__name__))
+                self.ended = 'crash'
+        finally:
+            events.clear = real_clear
+
     # ---------------------------------------------------------- run
     def run(self):
 
@@ -512,6 +581,10 @@ class Driver(object):
             except asyncore_25.ExitNow:
                 self.kernel.trace.append(('exitnow',))
                 self.ended = 'exit'
+                from supervisor.states import SupervisorStates
+                if self.script.get('second_life') and self.options.mood == SupervisorStates.RESTARTING \
+                        and self.opi < len(self.script['ops']):
+                    self._second_life()
             except simkernel.DaemonKilled as e:
                 self.kernel.trace.append(('crash', 'killed by signal %s' % e.args[0]))
                 self.crash_tb = ('supervisord installed no handler for signal %s: its default action terminates the daemon '
@@ -529,8 +602,10 @@ class Driver(object):
             from supervisor import events
             events.clear()
         return {'snaps': self.snaps, 'trace': self.kernel.trace, 'ended': self.ended,
-                'crash': getattr(self, 'crash_tb', None), 'hangs': list(self.kernel.hangs)}
+                'crash': getattr(self, 'crash_tb', None), 'hangs': list(self.kernel.hangs),
+                'stale_pools': getattr(self, 'stale_pools', 0)}
 
 
 def run_script(script):
     return Driver(script).run()
+
